@@ -222,19 +222,29 @@ func ruleCollectRebuilds(c *Ctx, ix *PkgIndex, rule string) {
 		if fVals == nil {
 			continue
 		}
-		walks := func(body ast.Node) bool {
+		var walksD func(body ast.Node, depth int) bool
+		walksD = func(body ast.Node, depth int) bool {
 			hit := false
-			if body == nil {
+			if body == nil || depth > 3 {
 				return false
 			}
 			inspectNoLit(body, func(n ast.Node) bool {
-				if rs, ok := n.(*ast.RangeStmt); ok && isField(info, rs.X, fVals) {
-					hit = true
+				switch x := n.(type) {
+				case *ast.RangeStmt:
+					if isField(info, x.X, fVals) {
+						hit = true
+					}
+				case *ast.CallExpr:
+					// … or hands the job to another declared function that does (the embedded aggregator's method, a copy helper)
+					if d := ix.declByObj(callee(info, x)); d != nil && d.Body() != nil && d.Body() != body && walksD(d.Body(), depth+1) {
+						hit = true
+					}
 				}
 				return true
 			})
 			return hit
 		}
+		walks := func(body ast.Node) bool { return walksD(body, 0) }
 		for _, m := range []string{"delta", "cumulative"} {
 			fn := ix.Func("(*" + a.typ + ")." + m)
 			if fn == nil || fn.Body() == nil {
